@@ -8,9 +8,10 @@
 import DlmsVerif.Gen.Enums
 import DlmsVerif.Model.Acse
 import DlmsVerif.Props.C14
+import DlmsVerif.Lemmas.Acse
 
 namespace Props.C02
-open Dlms Spec.Acse Model.Acse
+open Dlms Spec.Acse Model.Acse Lemmas.Acse
 
 def aarqTags : List Nat := Gen.Enums.aarqTags.map (·.1)
 def aareTags : List Nat := Gen.Enums.aareTags.map (·.1)
@@ -28,7 +29,7 @@ theorem C02_tables :
     Gen.Enums.authenticationMechanism = [0, 1, 2, 3, 4, 5, 6, 7] ∧
     Gen.Enums.associationResult = [0, 1, 2] ∧ Gen.Enums.releaseRequestReason = [0, 1, 30] ∧
     Gen.Enums.releaseResponseReason = [0, 1, 30] := by
-  sorry
+  decide
 
 /-- a title/certificate/password fits the one-byte inner headers the decoder strips (the
     quantifier has them at 0..64 bytes); every mechanism is a member of the enumeration;
@@ -52,30 +53,287 @@ def aareWf (a : Aare) : Bool :=
 def releaseWf (r : Release) : Bool :=
   (match r.reason with | none => true | some x => x < 256) && (match r.userInfo with | none => true | some u => uiOk u)
 
+
+/-! ### helpers -/
+
+private theorem aarqTags_eq :
+    aarqTags = [128, 138, 139, 161, 162, 163, 164, 165, 166, 167, 168, 169, 172, 189, 190] := by decide
+private theorem aareTags_eq :
+    aareTags = [128, 136, 137, 161, 162, 163, 164, 165, 166, 167, 170, 189, 190] := by decide
+private theorem rlrqTags_eq : rlrqTags = [128, 190] := by decide
+private theorem rlreTags_eq : rlreTags = [128, 190] := by decide
+
+/-- normalise every length of a TLV with a short content, then linear arithmetic. -/
+local macro "acse_len" : tactic => `(tactic| first | omega |
+  (simp (disch := omega) only [enc, List.forall_mem_cons, tlv_length, berLen_length_small, contextName_length,
+     mechanismOid_length, List.length_cons, List.length_nil, List.length_append, List.not_mem_nil, false_imp_iff,
+     implies_true, and_true, List.cons_append, List.nil_append] <;>
+   omega))
+
+/-- every component of an AARQ fits a definite length, and so does the body. -/
+private theorem aarqCs_ok (a : Aarq) (ht : smallOpt a.title = true) (hc : smallOpt a.cert = true)
+    (hv : smallOpt a.authValue = true) (hu : a.userInfo.length + 1024 < big) :
+    (∀ p ∈ aarqCs a, p.2.length < big) ∧ (enc (aarqCs a)).length < big ∧ 11 ≤ (enc (aarqCs a)).length := by
+  obtain ⟨ciph, title, cert, mech, av, u⟩ := a
+  simp only at ht hc hv hu
+  have hbig := big_ge
+  have l1 := berLen_length_le (n := u.length) (by omega)
+  have l2 := berLen_length_le (n := u.length + 1 + (berLen u.length).length) (by omega)
+  have hauth : authCs 0x8A 0x8B 0xAC mech av = [] ∨ ∃ m, authCs 0x8A 0x8B 0xAC mech av =
+      [(0x8A, [0x07, 0x80]), (0x8B, mechanismOid m)] ++ optCs av (fun v => (0xAC, tlv 0x80 v)) := by
+    unfold authCs
+    rcases mech with _ | m
+    · exact .inl rfl
+    · by_cases hm : (m != 0) = true
+      · exact .inr ⟨m, by simp only [hm, ↓reduceIte]⟩
+      · exact .inl (by simp only [hm]; rfl)
+  simp only [aarqCs]
+  rcases hauth with e | ⟨m, e⟩ <;> rw [e] <;>
+    rcases title with _ | t <;> rcases cert with _ | c <;> rcases av with _ | v <;>
+    simp only [smallOpt, decide_eq_true_eq] at ht hc hv <;>
+    simp only [optCs] <;> refine ⟨?_, ?_, ?_⟩ <;> acse_len
+
+private theorem aareCs_ok (a : Aare) (ht : smallOpt a.title = true) (hc : smallOpt a.cert = true)
+    (hv : smallOpt a.authValue = true) (hu : ∀ u, a.userInfo = some u → u.length + 1024 < big) :
+    (∀ p ∈ aareCs a, p.2.length < big) ∧ (enc (aareCs a)).length < big ∧ 11 ≤ (enc (aareCs a)).length := by
+  obtain ⟨ciph, res, du, dv, title, cert, mech, av, ui⟩ := a
+  simp only at ht hc hv hu
+  have hbig := big_ge
+  have hauth : authCs 0x88 0x89 0xAA mech av = [] ∨ ∃ m, authCs 0x88 0x89 0xAA mech av =
+      [(0x88, [0x07, 0x80]), (0x89, mechanismOid m)] ++ optCs av (fun v => (0xAA, tlv 0x80 v)) := by
+    unfold authCs
+    rcases mech with _ | m
+    · exact .inl rfl
+    · by_cases hm : (m != 0) = true
+      · exact .inr ⟨m, by simp only [hm, ↓reduceIte]⟩
+      · exact .inl (by simp only [hm]; rfl)
+  simp only [aareCs]
+  rcases ui with _ | u
+  · rcases hauth with e | ⟨m, e⟩ <;> rw [e] <;>
+      rcases title with _ | t <;> rcases cert with _ | c <;> rcases av with _ | v <;>
+      simp only [smallOpt, decide_eq_true_eq] at ht hc hv <;>
+      simp only [optCs] <;> refine ⟨?_, ?_, ?_⟩ <;> acse_len
+  · have hu := hu u rfl
+    have l1 := berLen_length_le (n := u.length) (by omega)
+    have l2 := berLen_length_le (n := u.length + 1 + (berLen u.length).length) (by omega)
+    rcases hauth with e | ⟨m, e⟩ <;> rw [e] <;>
+      rcases title with _ | t <;> rcases cert with _ | c <;> rcases av with _ | v <;>
+      simp only [smallOpt, decide_eq_true_eq] at ht hc hv <;>
+      simp only [optCs] <;> refine ⟨?_, ?_, ?_⟩ <;> acse_len
+
+private theorem releaseCs_ok (r : Release) (hu : ∀ u, r.userInfo = some u → u.length + 1024 < big) :
+    (∀ p ∈ releaseCs r, p.2.length < big) ∧ (enc (releaseCs r)).length < big := by
+  obtain ⟨reason, ui⟩ := r
+  simp only at hu
+  have hbig := big_ge
+  simp only [releaseCs]
+  rcases ui with _ | u
+  · rcases reason with _ | x <;> simp only [optCs] <;> refine ⟨?_, ?_⟩ <;> acse_len
+  · have hu := hu u rfl
+    have l1 := berLen_length_le (n := u.length) (by omega)
+    have l2 := berLen_length_le (n := u.length + 1 + (berLen u.length).length) (by omega)
+    rcases reason with _ | x <;> simp only [optCs] <;> refine ⟨?_, ?_⟩ <;> acse_len
+
+private theorem uiOk_iff (u : Bytes) : uiOk u = true ↔
+    (match u.head? with | some t => [1, 8, 14, 33, 40].contains t.toNat | none => false) = true ∧
+      u.length + 1024 < big := by
+  simp only [uiOk, Bool.and_eq_true, decide_eq_true_eq, Lemmas.Acse.byteLen_le_iff]
+
+private theorem uiOpt (o : Option Bytes) (h : (match o with | none => true | some u => uiOk u) = true) :
+    ∀ u, o = some u → (match u.head? with | some t => [1, 8, 14, 33, 40].contains t.toNat | none => false) = true ∧
+      u.length + 1024 < big := by
+  intro u e; subst e; exact (uiOk_iff u).1 h
+
 /-- **well-formed nesting at every level**: every length equals the length of what it
     frames, in all four APDUs, for every value (inner and outer lengths beyond 127 included). -/
 theorem C02_wellFormed_aarq (a : Aarq) (h : aarqWf a = true) : berWF (encodeAarq a).length (encodeAarq a) = true := by
-  sorry
+  simp only [aarqWf, mechOk, Bool.and_eq_true, uiOk_iff] at h
+  obtain ⟨⟨⟨ht, hc⟩, ⟨hm, _⟩, hsv⟩, _, hu⟩ := h
+  obtain ⟨_, hb, hge⟩ := aarqCs_ok a ht hc hsv hu
+  rw [encodeAarq_eq]
+  refine berWF_top _ _ hb (berWF_mono (f := 10) ?_ (by omega))
+  obtain ⟨ciph, title, cert, mech, av, u⟩ := a
+  simp only at ht hc hsv hu hm
+  have hbig := big_ge
+  have l1 := berLen_length_le (n := u.length) (by omega)
+  have l2 := berLen_length_le (n := u.length + 1 + (berLen u.length).length) (by omega)
+  rcases mech with _ | m
+  · rcases title with _ | t <;> rcases cert with _ | c <;>
+      simp only [smallOpt, decide_eq_true_eq] at ht hc <;>
+      simp (disch := acse_len) [aarqCs, optCs, authCs, berWF_enc_cons, berWF_enc_nil, berWF_tlv_nil, berWF_contextName]
+  · have hm : 1 ≤ m ∧ m ≤ 7 := by simpa using hm
+    have hm0 : (m != 0) = true := by simp; omega
+    rcases title with _ | t <;> rcases cert with _ | c <;> rcases av with _ | v <;>
+      simp only [smallOpt, decide_eq_true_eq] at ht hc hsv <;>
+      simp (disch := acse_len) [aarqCs, optCs, authCs, hm0, berWF_enc_cons, berWF_enc_nil, berWF_tlv_nil, berWF_contextName]
 
 theorem C02_wellFormed_aare (a : Aare) (h : aareWf a = true) : berWF (encodeAare a).length (encodeAare a) = true := by
-  sorry
+  simp only [aareWf, mechOk, Bool.and_eq_true] at h
+  obtain ⟨⟨⟨⟨⟨_, _⟩, ht⟩, hc⟩, ⟨hm, _⟩, hsv⟩, hui0⟩ := h
+  have hui := uiOpt _ hui0
+  clear hui0
+  obtain ⟨_, hb, hge⟩ := aareCs_ok a ht hc hsv (fun u e => (hui u e).2)
+  rw [encodeAare_eq]
+  refine berWF_top _ _ hb (berWF_mono (f := 10) ?_ (by omega))
+  obtain ⟨ciph, res, du, dv, title, cert, mech, av, ui⟩ := a
+  simp only at ht hc hsv hui hm
+  have hbig := big_ge
+  rcases mech with _ | m
+  · rcases ui with _ | u
+    · rcases du <;> rcases title with _ | t <;> rcases cert with _ | c <;>
+        simp only [smallOpt, decide_eq_true_eq] at ht hc <;>
+        simp (disch := acse_len) [aareCs, optCs, authCs, berWF_enc_cons, berWF_enc_nil, berWF_tlv_nil, berWF_contextName]
+    · have hu := (hui u rfl).2
+      have l1 := berLen_length_le (n := u.length) (by omega)
+      have l2 := berLen_length_le (n := u.length + 1 + (berLen u.length).length) (by omega)
+      rcases du <;> rcases title with _ | t <;> rcases cert with _ | c <;>
+        simp only [smallOpt, decide_eq_true_eq] at ht hc <;>
+        simp (disch := acse_len) [aareCs, optCs, authCs, berWF_enc_cons, berWF_enc_nil, berWF_tlv_nil, berWF_contextName]
+  · have hm : 1 ≤ m ∧ m ≤ 7 := by simpa using hm
+    have hm0 : (m != 0) = true := by simp; omega
+    rcases ui with _ | u
+    · rcases du <;> rcases title with _ | t <;> rcases cert with _ | c <;> rcases av with _ | v <;>
+        simp only [smallOpt, decide_eq_true_eq] at ht hc hsv <;>
+        simp (disch := acse_len) [aareCs, optCs, authCs, hm0, berWF_enc_cons, berWF_enc_nil, berWF_tlv_nil, berWF_contextName]
+    · have hu := (hui u rfl).2
+      have l1 := berLen_length_le (n := u.length) (by omega)
+      have l2 := berLen_length_le (n := u.length + 1 + (berLen u.length).length) (by omega)
+      rcases du <;> rcases title with _ | t <;> rcases cert with _ | c <;> rcases av with _ | v <;>
+        simp only [smallOpt, decide_eq_true_eq] at ht hc hsv <;>
+        simp (disch := acse_len) [aareCs, optCs, authCs, hm0, berWF_enc_cons, berWF_enc_nil, berWF_tlv_nil, berWF_contextName]
 
 theorem C02_wellFormed_release (tag : UInt8) (r : Release) (h : releaseWf r = true) :
     berWF (encodeRelease tag r).length (encodeRelease tag r) = true := by
-  sorry
+  simp only [releaseWf, Bool.and_eq_true] at h
+  have hui := uiOpt _ h.2
+  obtain ⟨_, hb⟩ := releaseCs_ok r (fun u e => (hui u e).2)
+  rw [encodeRelease_eq]
+  refine berWF_top _ _ hb ?_
+  obtain ⟨reason, ui⟩ := r
+  simp only at hui
+  have hbig := big_ge
+  rcases ui with _ | u
+  · rcases reason with _ | x
+    · simp [releaseCs, optCs, berWF_enc_nil]
+    · refine berWF_mono (f := 3) ?_ (by simp only [releaseCs, optCs]; acse_len)
+      simp (disch := acse_len) [releaseCs, optCs, berWF_enc_cons, berWF_enc_nil]
+  · have hu := (hui u rfl).2
+    have l1 := berLen_length_le (n := u.length) (by omega)
+    have l2 := berLen_length_le (n := u.length + 1 + (berLen u.length).length) (by omega)
+    have p1 := berLen_length_pos u.length
+    have p2 := berLen_length_pos (u.length + 1 + (berLen u.length).length)
+    rcases reason with _ | x <;>
+      (refine berWF_mono (f := 3) ?_ (by simp only [releaseCs, optCs]; acse_len)
+       simp (disch := acse_len) [releaseCs, optCs, berWF_enc_cons, berWF_enc_nil, berWF_tlv_nil])
 
 /-- **decoding inverts encoding**. -/
 theorem C02_decode_encode_aarq (a : Aarq) (h : aarqWf a = true) : decodeAarq aarqTags (encodeAarq a) = some a := by
-  sorry
+  simp only [aarqWf, mechOk, Bool.and_eq_true, uiOk_iff, decide_eq_true_eq] at h
+  obtain ⟨⟨⟨ht, hc⟩, ⟨hm, hv⟩, hsv⟩, hh, hu⟩ := h
+  obtain ⟨hcs, hb, _⟩ := aarqCs_ok a ht hc hsv hu
+  rw [encodeAarq_eq, decodeAarq_enc _ _ hcs hb]
+  clear hcs hb
+  obtain ⟨ciph, title, cert, mech, av, u⟩ := a
+  simp only at ht hc hsv hu hm hv hh
+  have hbig := big_ge
+  have hui := userInfoOf_tlv u (by omega) hh
+  rcases mech with _ | m
+  · have : av = none := by
+      cases av with
+      | none => rfl
+      | some v => simp [isAuth] at hv
+    subst this
+    rcases title with _ | t <;> rcases cert with _ | c <;>
+      simp only [smallOpt, decide_eq_true_eq] at ht hc <;>
+      simp (disch := omega) [aarqCs, optCs, authCs, aarqOfCs, allowed, aarqTags_eq, lookup_cons, lookup_nil, authOf,
+        contextOf_contextName, hui, octetOf_tlv, octetOf_none]
+  · have hm : 1 ≤ m ∧ m ≤ 7 := by simpa using hm
+    have hm0 : (m != 0) = true := by simp; omega
+    have hmo := mechanismOf_mechanismOid m hm.2
+    rcases title with _ | t <;> rcases cert with _ | c <;> rcases av with _ | v <;>
+      simp only [smallOpt, decide_eq_true_eq] at ht hc hsv <;>
+      simp (disch := omega) [aarqCs, optCs, authCs, aarqOfCs, allowed, aarqTags_eq, lookup_cons, lookup_nil, authOf,
+        contextOf_contextName, hui, octetOf_tlv, octetOf_none, hm0, hmo, splitTlv_tlv_nil]
 
 theorem C02_decode_encode_aare (a : Aare) (h : aareWf a = true) : decodeAare aareTags (encodeAare a) = some a := by
-  sorry
+  simp only [aareWf, mechOk, Bool.and_eq_true, decide_eq_true_eq] at h
+  obtain ⟨⟨⟨⟨⟨hres, hdv⟩, ht⟩, hc⟩, ⟨hm, hv⟩, hsv⟩, hui0⟩ := h
+  have hui := uiOpt _ hui0
+  clear hui0
+  obtain ⟨hcs, hb, _⟩ := aareCs_ok a ht hc hsv (fun u e => (hui u e).2)
+  rw [encodeAare_eq, decodeAare_enc _ _ hcs hb]
+  clear hcs hb
+  obtain ⟨ciph, res, du, dv, title, cert, mech, av, ui⟩ := a
+  simp only at hres hdv ht hc hsv hui hm hv
+  have hbig := big_ge
+  have hres' := intOf_tlv res (by omega)
+  have hdv' := intOf_tlv dv (by omega)
+  have hdg : ∀ tag, splitTlv (tlv tag (tlv 2 [UInt8.ofNat dv])) = some (tag, tlv 2 [UInt8.ofNat dv], []) :=
+    fun tag => splitTlv_tlv_nil _ _ (by acse_len)
+  rcases mech with _ | m
+  · have : av = none := by
+      cases av with
+      | none => rfl
+      | some v => simp [isAuth] at hv
+    subst this
+    rcases ui with _ | u
+    · rcases du <;> rcases title with _ | t <;> rcases cert with _ | c <;>
+        simp only [smallOpt, decide_eq_true_eq] at ht hc <;>
+        simp (disch := omega) [aareCs, optCs, authCs, aareOfCs, allowed, aareTags_eq, lookup_cons, lookup_nil, authOf,
+          contextOf_contextName, octetOf_tlv, octetOf_none, hres', hdv', hdg]
+    · obtain ⟨hh, hu⟩ := hui u rfl
+      have hui' := userInfoOf_tlv u (by omega) hh
+      rcases du <;> rcases title with _ | t <;> rcases cert with _ | c <;>
+        simp only [smallOpt, decide_eq_true_eq] at ht hc <;>
+        simp (disch := omega) [aareCs, optCs, authCs, aareOfCs, allowed, aareTags_eq, lookup_cons, lookup_nil, authOf,
+          contextOf_contextName, octetOf_tlv, octetOf_none, hres', hdv', hdg, hui']
+  · have hm : 1 ≤ m ∧ m ≤ 7 := by simpa using hm
+    have hm0 : (m != 0) = true := by simp; omega
+    have hmo := mechanismOf_mechanismOid m hm.2
+    rcases ui with _ | u
+    · rcases du <;> rcases title with _ | t <;> rcases cert with _ | c <;> rcases av with _ | v <;>
+        simp only [smallOpt, decide_eq_true_eq] at ht hc hsv <;>
+        simp (disch := omega) [aareCs, optCs, authCs, aareOfCs, allowed, aareTags_eq, lookup_cons, lookup_nil, authOf,
+          contextOf_contextName, octetOf_tlv, octetOf_none, hres', hdv', hdg, hm0, hmo, splitTlv_tlv_nil]
+    · obtain ⟨hh, hu⟩ := hui u rfl
+      have hui' := userInfoOf_tlv u (by omega) hh
+      rcases du <;> rcases title with _ | t <;> rcases cert with _ | c <;> rcases av with _ | v <;>
+        simp only [smallOpt, decide_eq_true_eq] at ht hc hsv <;>
+        simp (disch := omega) [aareCs, optCs, authCs, aareOfCs, allowed, aareTags_eq, lookup_cons, lookup_nil, authOf,
+          contextOf_contextName, octetOf_tlv, octetOf_none, hres', hdv', hdg, hm0, hmo, hui', splitTlv_tlv_nil]
 
-theorem C02_decode_encode_rlrq (r : Release) (h : releaseWf r = true) : decodeRelease 0x62 rlrqTags (encodeRlrq r) = some r := by
-  sorry
+private theorem dec_release (apduTag : UInt8) (tags : List Nat) (htags : tags = [128, 190]) (r : Release)
+    (h : releaseWf r = true) : decodeRelease apduTag tags (encodeRelease apduTag r) = some r := by
+  subst htags
+  simp only [releaseWf, Bool.and_eq_true] at h
+  obtain ⟨hr, hui0⟩ := h
+  have hui := uiOpt _ hui0
+  clear hui0
+  obtain ⟨hcs, hb⟩ := releaseCs_ok r (fun u e => (hui u e).2)
+  rw [encodeRelease_eq, decodeRelease_enc _ _ _ hcs hb]
+  clear hcs hb
+  obtain ⟨reason, ui⟩ := r
+  simp only at hr hui
+  have hbig := big_ge
+  rcases ui with _ | u
+  · rcases reason with _ | x
+    · simp [releaseCs, optCs, releaseOfCs, allowed, lookup_nil]
+    · have hx : x < 256 := by simpa using hr
+      have e : (UInt8.ofNat x).toNat = x := by simp [UInt8.toNat_ofNat']; omega
+      simp [releaseCs, optCs, releaseOfCs, allowed, lookup_cons, lookup_nil, e]
+  · obtain ⟨hh, hu⟩ := hui u rfl
+    have hui' := userInfoOf_tlv u (by omega) hh
+    rcases reason with _ | x
+    · simp [releaseCs, optCs, releaseOfCs, allowed, lookup_cons, lookup_nil, hui']
+    · have hx : x < 256 := by simpa using hr
+      have e : (UInt8.ofNat x).toNat = x := by simp [UInt8.toNat_ofNat']; omega
+      simp [releaseCs, optCs, releaseOfCs, allowed, lookup_cons, lookup_nil, e, hui']
 
-theorem C02_decode_encode_rlre (r : Release) (h : releaseWf r = true) : decodeRelease 0x63 rlreTags (encodeRlre r) = some r := by
-  sorry
+theorem C02_decode_encode_rlrq (r : Release) (h : releaseWf r = true) : decodeRelease 0x62 rlrqTags (encodeRlrq r) = some r :=
+  dec_release 0x62 rlrqTags rlrqTags_eq r h
+
+theorem C02_decode_encode_rlre (r : Release) (h : releaseWf r = true) : decodeRelease 0x63 rlreTags (encodeRlre r) = some r :=
+  dec_release 0x63 rlreTags rlreTags_eq r h
 
 /-- does a component with this tag occur at the top level of the APDU body? -/
 def hasComponent (apduTag : UInt8) (enc : Bytes) (tag : UInt8) : Bool :=
@@ -85,6 +343,11 @@ def hasComponent (apduTag : UInt8) (enc : Bytes) (tag : UInt8) : Bool :=
     | none => false
   | none => false
 
+private theorem hasComponent_enc (apduTag : UInt8) (cs : List (UInt8 × Bytes)) (tag : UInt8)
+    (h : ∀ p ∈ cs, p.2.length < big) (hb : (enc cs).length < big) :
+    hasComponent apduTag (tlv apduTag (enc cs)) tag = cs.any (·.1 == tag) := by
+  simp only [hasComponent, single_tlv _ _ hb, components_enc_self cs h]
+
 /-- **authentication components ⇔ mechanism**: ACSE requirements, mechanism name (and the
     authentication value, when one is given) are in the encoding exactly when an
     authentication mechanism other than 'none' is selected. -/
@@ -93,23 +356,53 @@ theorem C02_auth_iff_aarq (a : Aarq) (h : smallOpt a.title = true ∧ smallOpt a
     (hasComponent 0x60 (encodeAarq a) 0x8A = isAuth a.mechanism) ∧
     (hasComponent 0x60 (encodeAarq a) 0x8B = isAuth a.mechanism) ∧
     (hasComponent 0x60 (encodeAarq a) 0xAC = (isAuth a.mechanism && a.authValue.isSome)) := by
-  sorry
+  obtain ⟨ht, hc, hv, hu⟩ := h
+  obtain ⟨hcs, hb, _⟩ := aarqCs_ok a ht hc hv ((Lemmas.Acse.byteLen_le_iff _).1 hu)
+  rw [encodeAarq_eq]
+  simp only [hasComponent_enc _ _ _ hcs hb]
+  clear hcs hb ht hc hv hu
+  obtain ⟨ciph, title, cert, mech, av, u⟩ := a
+  rcases mech with _ | m
+  · rcases title with _ | t <;> rcases cert with _ | c <;> simp [aarqCs, optCs, authCs, isAuth]
+  · by_cases hm : m = 0
+    · subst hm
+      rcases title with _ | t <;> rcases cert with _ | c <;> simp [aarqCs, optCs, authCs, isAuth]
+    · rcases title with _ | t <;> rcases cert with _ | c <;> rcases av with _ | v <;>
+        simp [aarqCs, optCs, authCs, isAuth, hm]
 
 theorem C02_auth_iff_aare (a : Aare) (h : a.result < 128 ∧ a.diag < 128 ∧ smallOpt a.title = true ∧ smallOpt a.cert = true ∧
       smallOpt a.authValue = true ∧ (match a.userInfo with | none => True | some u => Spec.Axdr.byteLen (u.length + 1024) ≤ 127)) :
     (hasComponent 0x61 (encodeAare a) 0x88 = isAuth a.mechanism) ∧
     (hasComponent 0x61 (encodeAare a) 0x89 = isAuth a.mechanism) ∧
     (hasComponent 0x61 (encodeAare a) 0xAA = (isAuth a.mechanism && a.authValue.isSome)) := by
-  sorry
+  obtain ⟨_, _, ht, hc, hv, hu⟩ := h
+  have hu' : ∀ u, a.userInfo = some u → u.length + 1024 < big := by
+    intro u e; rw [e] at hu; exact (Lemmas.Acse.byteLen_le_iff _).1 hu
+  obtain ⟨hcs, hb, _⟩ := aareCs_ok a ht hc hv hu'
+  rw [encodeAare_eq]
+  simp only [hasComponent_enc _ _ _ hcs hb]
+  clear hcs hb ht hc hv hu hu'
+  obtain ⟨ciph, res, du, dv, title, cert, mech, av, ui⟩ := a
+  rcases mech with _ | m
+  · rcases title with _ | t <;> rcases cert with _ | c <;> rcases ui with _ | u <;>
+      simp [aareCs, optCs, authCs, isAuth]
+  · by_cases hm : m = 0
+    · subst hm
+      rcases title with _ | t <;> rcases cert with _ | c <;> rcases ui with _ | u <;>
+        simp [aareCs, optCs, authCs, isAuth]
+    · rcases title with _ | t <;> rcases cert with _ | c <;> rcases ui with _ | u <;> rcases av with _ | v <;>
+        simp [aareCs, optCs, authCs, isAuth, hm]
 
 /-- BER definite lengths are read back for every length (short and long form). -/
 theorem C02_berLen_roundtrip (tag : UInt8) (content rest : Bytes) (h : Spec.Axdr.byteLen content.length ≤ 127) :
-    splitTlv (tlv tag content ++ rest) = some (tag, content, rest) := by
-  sorry
+    splitTlv (tlv tag content ++ rest) = some (tag, content, rest) :=
+  splitTlv_tlv tag content rest ((Lemmas.Acse.byteLen_le_iff _).1 h)
 
 /-- non-vacuity: an HLS-GMAC AARQ whose outer length needs the long form. -/
 example : aarqWf { ciphered := true, title := some [1, 2, 3, 4, 5, 6, 7, 8], mechanism := some 5,
                     authValue := some (List.replicate 32 7), userInfo := 33 :: List.replicate 70 1 } = true := by
-  sorry
+  have hbig := big_ge
+  simp [aarqWf, smallOpt, mechOk, isAuth, uiOk, Lemmas.Acse.byteLen_le_iff]
+  omega
 
 end Props.C02
